@@ -127,8 +127,9 @@ func (s *SourceFileSet) file(p Pos) *SourceFile {
 		f := s.Files[i]
 
 		// f.base <= int(p) by definition of searchFiles
+		// LastFile is not updated here: position lookups run concurrently on
+		// a file set shared by VMs, and an unsynchronized write is a data race.
 		if int(p) <= f.Base+f.Size {
-			s.LastFile = f // race is ok - s.last is only a cache
 			return f
 		}
 	}
